@@ -25,8 +25,8 @@ import warnings
 RULE = ("part 1 exhaustive over scenarios = (services in the configuration, Companion credentials, AirPlay video / "
         "MRP-tunnel / unified-RAOP flags, empty or real TXT records, which queued SetupData answer connect() with False): "
         "the 31 native sets (both TXT variants, both video flags), all 180 (set-up set, failing proper subset) pairs, 48 "
-        "tunnel/unified configurations all connecting (both TXT variants) and with every single failing connect, plus seeded "
-        "random ones; the device object comes from the real pyatv.connect() and a connected protocol takes over through the "
+        "tunnel/unified configurations all connecting (both TXT variants) and with every single failing connect, five real "
+        "devices as pyatv's own scanner sees them x every set of their protocols left enabled, plus seeded random ones; the device object comes from the real pyatv.connect() and a connected protocol takes over through the "
         "core.takeover wired there; x {no holder, each of 5 holders} x every member with default-style arguments and with "
         "every other value of its enum-typed / optional parameters (from the signatures); then again after each connected "
         "protocol published volume/output devices/focus/play state with exactly the published values as arguments (twice, "
@@ -83,9 +83,38 @@ def scenario(services=None, fail=(), **kw):
 
 
 def scen_key(sc):
-    return "svc=%s;cc=%d;v=%d;tun=%d;uni=%d;txt=%d;fail=%s" % (
+    return "%ssvc=%s;cc=%d;v=%d;tun=%d;uni=%d;txt=%d;fail=%s" % (
+        ("dev=%s;" % sc["profile"]) if sc.get("profile") else "",
         "+".join(sc["services"]), sc["companion_creds"], sc["video"], sc["tunnel"], sc["unified"], sc.get("txt", False),
         ".".join(map(str, sc["fail"])) or "-")
+
+
+def device_scenario(profile, services=None, **kw):
+    """a device of tools/gen/c01.DEVICE_PROFILES as pyatv's own scanner sees it, with the given
+    protocols left enabled (default: all it has)"""
+    from tools.gen.c01 import DEVICE_PROFILES, profile_protocols
+
+    have = profile_protocols(profile)
+    return scenario(have if services is None else [p for p in have if p in services], profile=profile,
+                    video=DEVICE_PROFILES[profile]["video"], **kw)
+
+
+def device_scenarios():
+    """every scanned device x every non-empty set of its protocols left enabled (x Companion
+    with / without credentials when it has that service)"""
+    from tools.gen.c01 import DEVICE_PROFILES, profile_protocols
+
+    out = []
+    for profile in DEVICE_PROFILES:
+        have = profile_protocols(profile)
+        for bits in range(1, 1 << len(have)):
+            sub = [p for i, p in enumerate(have) if bits & (1 << i)]
+            out.append(device_scenario(profile, sub))
+            if "Companion" in sub and len(sub) > 1:
+                out.append(device_scenario(profile, sub, companion_creds=False))
+        n = 6
+        out += [device_scenario(profile, fail=[k]) for k in range(n)]
+    return out
 
 
 def native_scenarios():
@@ -128,6 +157,7 @@ def all_scenarios(patches, rng=None, extra=0):
     out = native_scenarios()
     out += [scenario(S, video=False) for S in subsets() if "AirPlay" in S]
     out += [scenario(S, txt=True) for S in subsets()]          # services announcing real TXT records
+    out += device_scenarios()                                  # real devices as the scanner sees them
     out += failing_connect_scenarios()
     for cfg in path_configs():
         n = len(World(patches, scenario(**cfg)).built.queue)
